@@ -174,6 +174,9 @@ func (e *Engine) addObl(kind, name string, tags []string, st *State, goal string
 	if n := e.nameCnt[full]; n > 1 {
 		full = fmt.Sprintf("%s#%d", full, n)
 	}
+	if fl := e.envGuardFor(tags); fl != "" && goal != "true" {
+		goal = "(=> " + fl + " " + goal + ")"
+	}
 	o := &Obligation{Name: full, Kind: kind, Tags: tags, Fn: e.topKey, c: e.c, PC: st.pc, Goal: goal}
 	if pos.IsValid() {
 		p := e.w.fset.Position(pos)
@@ -249,4 +252,23 @@ func (ws *WriteSet) sortedKeys() []string {
 	}
 	sort.Strings(ks)
 	return ks
+}
+
+// envGuardFor: `envassume [P.x] e` clauses (environment assumptions for one property P) hold under the global boolean
+// env!P. Only what serves P alone may use it: obligations all of whose tags are P are proved under env!P, and a lock
+// invariant tagged only P (proved under env!P) is assumed only under env!P. Everything else never sees the assumption.
+func (e *Engine) envGuardFor(tags []string) string {
+	if len(tags) == 0 {
+		return ""
+	}
+	p := tags[0]
+	for _, t := range tags {
+		if t != p {
+			return ""
+		}
+	}
+	if !e.w.spec.EnvProps[p] {
+		return ""
+	}
+	return e.c.constant("env!"+p, SBool)
 }
